@@ -17,6 +17,7 @@ import operator
 from oslo_db import exception as db_exc
 from oslo_serialization import jsonutils
 from oslo_utils import encodeutils
+from oslo_utils import timeutils
 import webob
 
 from placement.db import constants as db_const
@@ -107,7 +108,10 @@ def _send_inventories(req, resource_provider, inventories):
     response.content_type = 'application/json'
     want_version = req.environ[microversion.MICROVERSION_ENVIRON]
     if want_version.matches((1, 15)):
-        response.last_modified = last_modified
+        # Without inventories there is no timestamp to pick: use the current
+        # time, as the other empty collections do.
+        response.last_modified = (
+            last_modified or timeutils.utcnow(with_timezone=True))
         response.cache_control = 'no-cache'
     return response
 
